@@ -195,6 +195,8 @@ def extra(ctx):
         bad = [l[len("# oracle FAIL "):] for l in verdicts if l.startswith("# oracle FAIL")]
         if bad:
             fid = _finding_of(cls)
+            if fid is None and all("[lexer-context-literal " in b for b in bad):
+                fid = "C12-lexer-context-dependent-literal"
             f = open_findings.get(fid)
             if f is not None and all(f.get("match") and f["match"] in b for b in bad):
                 known_seen.setdefault(fid, []).append(cls)
